@@ -192,6 +192,24 @@ CLAIMED.update({
     ),
 })
 
+CLAIMED.update({
+    'C01': (
+        'proxy symbolic execution (bvx/z3) of the real instruction classes and of Interpreter.run_code on symbolic stacks, differential against a reference interpreter',
+        'Bounded symbolic model checking: ~120 instruction/program templates (stack manipulation incl. nested DIP/DUP n/DIG/DUG, control flow, lambdas, data '
+        'structures, strings/bytes, environment, hashing, whole contracts) run on fully symbolic input stacks; the final stack or the failure must equal that of an '
+        'independent reference interpreter (ref/michelson.py) on the same symbolic inputs.',
+        'Reference interpreter validated on the Octez-derived opcode vectors of the repository; hashes are uninterpreted tokens; FAILWITH payloads not compared; arithmetic/compare/collections/tickets/PACK/macros in depth are C16/C03/C14/C20/C04/C19.',
+        'DESIGN.md C01',
+    ),
+    'C02': (
+        'same symbolic runs as C01 (bvx/z3) with the assertion on the runtime type of every result slot against the types computed by the reference interpreter',
+        'Bounded symbolic model checking: for every template of C01 and for MAP over maps with composite keys, type(v).as_micheline_expr() (annotations stripped) of each '
+        'resulting stack slot / storage must equal the type assigned by the reference typing; known finding: MAP over an empty collection with a type-changing body.',
+        'Typing rules are those implemented by the reference interpreter for its instruction set.',
+        'DESIGN.md C02',
+    ),
+})
+
 NOT_APPLICABLE = {
     'C18': 'Parser is a PLY regex lexer + LALR tables + json; every input is concrete before the code under test runs, '
            'so a solver has nothing to decide (CrossHair regex model also unsound here). See DESIGN.md section 6.',
